@@ -23,7 +23,7 @@ CONSTANTS Nodes,          \* all storage nodes (ensemble members + spares)
           InitEnsemble,   \* initial ensemble
           Values,         \* client payloads
           NULL,
-          MaxTerm, MaxWrites, MaxCrash, MaxReset, MaxCoCrash, MaxSwap, MaxLate, MaxStreams,
+          MaxTerm, MaxWrites, MaxCrash, MaxReset, MaxCoCrash, MaxSwap, MaxLate, MaxStreams, MaxCancel,
           \* switches: TRUE = repaired behaviour, FALSE = what the code did at the pinned commit
           DupAckSynced,   \* follower acknowledges a duplicate only once the entry is synced
           SyncedHead,     \* NewTerm syncs the WAL before it reads the head entry
@@ -106,7 +106,7 @@ Init ==
     /\ leaders = [t \in 1..MaxTerm |-> {}]
     /\ fence = [n \in Nodes |-> NULL]
     /\ kf = {}
-    /\ budget = [crash |-> MaxCrash, reset |-> MaxReset, cocrash |-> MaxCoCrash, swap |-> MaxSwap, late |-> MaxLate]
+    /\ budget = [crash |-> MaxCrash, reset |-> MaxReset, cocrash |-> MaxCoCrash, swap |-> MaxSwap, late |-> MaxLate, cancel |-> MaxCancel]
 
 ----------------------------------------------------------------------------
 (***************************************************************************)
@@ -286,6 +286,15 @@ ClientWrite(n, v) ==
     \* has already jumped over when it committed older entries
     /\ kf' = IF \E h \in hcommit : h.e.t < term[n] /\ term[n] < h.by THEN kf \cup {"fig8"} ELSE kf
     /\ UNCHANGED <<up, ctrl, status, term, phantom, synced, applied, dur, fol, wireVars, coVars, acked, hcommit, leaders, fence, budget>>
+
+\* The client gives up (context cancelled / timed out) after its write was handed to the leader.  The
+\* write is in the log: it still commits, is applied and acknowledged like any other (the outcome is
+\* merely unknown to that client).  No state changes; the harness cancels the context of the call.
+ClientCancel(n) ==
+    /\ up[n] /\ lead[n] # NULL /\ (lead[n].cbq \cup lead[n].wait) # {}
+    /\ budget.cancel > 0
+    /\ budget' = [budget EXCEPT !.cancel = @ - 1]
+    /\ UNCHANGED <<nodeVars, wireVars, coVars, acked, nwrites, hcommit, leaders, fence, kf>>
 
 \* leader n (record ld, after its commit moved from oldCommit to ld.commit): waiters run in offset order
 LeaderCommitEffects(n, ld, oldCommit) ==
@@ -665,6 +674,7 @@ Next ==
     \/ \E r \in ntq : HandleNewTerm(r.n, r.t)
     \/ \E n \in Nodes : WalSync(n) \/ Crash(n) \/ Restart(n)
     \/ \E n \in Nodes, v \in Values : ClientWrite(n, v)
+    \/ \E n \in Nodes : ClientCancel(n)
     \/ \E l, f \in Nodes : CursorConnect(l, f) \/ CursorSnapshot(l, f) \/ DeliverAppend(l, f) \/ DeliverAck(f, l) \/ StreamReset(l, f)
     \/ CoElect \/ CoElected \/ CoBecomeLeaderTimeout \/ CoCrash \/ CoRestart
     \/ \E n \in Nodes, R \in SUBSET Nodes : CoBecomeLeader(n, R)
